@@ -126,7 +126,7 @@ def coq_case(cid, lines, r):
     if hd[0] != 'iocase' or cid not in r.get('D', {}):
         return None
     setup = [l for l in lines[1:-1] if not l.startswith('q ')]
-    qs = [l[2:].split(' ') for l in lines[1:-1] if l.startswith('q ') and l != 'q fstest'][:NQ]
+    qs = [l[2:].split(' ') for l in lines[1:-1] if l.startswith('q ') and l != 'q fstest' and not l.startswith('q mixed ')][:NQ]
     if any(len(l) > 600 for l in setup) or len(setup) > 60:
         return None    # 5000-byte files: too slow as Coq literals
     i = _ids.setdefault(cid, len(_ids))
